@@ -29,6 +29,9 @@ type rtokScn struct {
 		Ref *int  `json:"ref"`
 	} `json:"script"`
 	Recv string `json:"recv"`
+	// Huge: the basis blocks lie BEYOND 2 GiB: the basis file starts with a sparse run of zero blocks, so that every
+	// block the script references starts at a byte offset >= 2^31 (offset arithmetic in more than 32 bits)
+	Huge bool `json:"huge"`
 }
 
 type rtokObs struct {
@@ -59,6 +62,15 @@ func rtokHandler(w *workerCtx, line []byte) (any, error) {
 		return nil, fmt.Errorf("block length %d symbols does not divide 700", s.Blk)
 	}
 	width := 700 / s.Blk
+	blockBytes, padBlocks := 700, 0
+	if s.Huge {
+		// total = B*B + remainder, so the generator's block length floor(sqrt(total)) is B; the first B-2 blocks are a hole
+		const B = 46344
+		if B%s.Blk != 0 || len(s.Basis)/s.Blk != 2 {
+			return nil, fmt.Errorf("huge basis needs exactly two full blocks (basis %d symbols, block %d)", len(s.Basis), s.Blk)
+		}
+		blockBytes, padBlocks, width = B, B-2, B/s.Blk
+	}
 	obs := &rtokObs{ID: s.ID, Basis: s.Basis, Blk: s.Blk, Script: raw.Script, Recv: s.Recv, Out: []int{}, Head: []int32{}}
 	if obs.Basis == nil {
 		obs.Basis = []int{}
@@ -74,8 +86,8 @@ func rtokHandler(w *workerCtx, line []byte) (any, error) {
 	var target []byte
 	for _, tk := range s.Script {
 		if tk.Ref != nil {
-			off := *tk.Ref * 700
-			end := min(off+700, len(basis))
+			off := *tk.Ref * blockBytes
+			end := min(off+blockBytes, len(basis))
 			if off >= len(basis) {
 				return nil, fmt.Errorf("script references block %d beyond the basis", *tk.Ref)
 			}
@@ -92,7 +104,22 @@ func rtokHandler(w *workerCtx, line []byte) (any, error) {
 		return nil, err
 	}
 	fpath := filepath.Join(dest, "f")
-	if len(s.Basis) > 0 {
+	if s.Huge {
+		f, err := os.Create(fpath)
+		if err != nil {
+			return nil, err
+		}
+		pad := int64(padBlocks) * int64(blockBytes)
+		if err := f.Truncate(pad + int64(len(basis))); err == nil {
+			_, err = f.WriteAt(basis, pad)
+		}
+		f.Close()
+		if err != nil {
+			return nil, err
+		}
+		old := time.Unix(1_000_000, 0)
+		os.Chtimes(fpath, old, old)
+	} else if len(s.Basis) > 0 {
 		if err := os.WriteFile(fpath, basis, 0o644); err != nil {
 			return nil, err
 		}
@@ -137,14 +164,14 @@ func rtokHandler(w *workerCtx, line []byte) (any, error) {
 		}
 		h := req.Head
 		obs.Head = []int32{h.Count, h.Blk, h.S2, h.Rem}
-		if len(s.Basis) > 0 && (h.Blk != 700 || int(h.Count) != (len(basis)+699)/700 || int(h.Rem) != len(basis)%700) {
-			scriptErr = fmt.Errorf("the generator's block layout %v is not the expected one (700-byte blocks over %d bytes)", obs.Head, len(basis))
+		if len(s.Basis) > 0 && (int(h.Blk) != blockBytes || int(h.Count) != padBlocks+(len(basis)+blockBytes-1)/blockBytes || int(h.Rem) != len(basis)%blockBytes) {
+			scriptErr = fmt.Errorf("the generator's block layout %v is not the expected one (%d-byte blocks over %d bytes after %d hole blocks)", obs.Head, blockBytes, len(basis), padBlocks)
 			return nil, scriptErr
 		}
 		a := &wirekit.Answer{Idx: req.Idx, Head: h, Sum: wirekit.FileSum(p.Seed, target)}
 		for _, tk := range s.Script {
 			if tk.Ref != nil {
-				a.Toks = append(a.Toks, wirekit.Token{Ref: int32(*tk.Ref)})
+				a.Toks = append(a.Toks, wirekit.Token{Ref: int32(*tk.Ref + padBlocks)})
 				continue
 			}
 			var lit []byte
@@ -168,7 +195,7 @@ func rtokHandler(w *workerCtx, line []byte) (any, error) {
 	select {
 	case derr = <-p.Done:
 		finished = true
-	case <-idleAfter(10 * time.Second):
+	case <-idleAfter(30 * time.Second):
 	}
 	if scriptErr != nil {
 		return nil, scriptErr
